@@ -256,9 +256,13 @@ impl Brc20ProgDatabase {
         //
         // TODO: This is a temporary solution, we can potentially avoid using a mutex for reads
         // TODO: Also, test this, maybe it's not that slow?
-        if block_number_to - block_number_from > 5 {
+        // A reversed range (to < from) is served as an empty range
+        if block_number_to.saturating_sub(block_number_from) > 5 {
             return Err("Block range is too large, please limit it to 5 blocks".into());
         }
+        let block_number_range_end = block_number_to
+            .checked_add(1)
+            .ok_or("Block number is too large")?;
 
         let mut logs = Vec::new();
 
@@ -268,7 +272,7 @@ impl Brc20ProgDatabase {
             .expect(DB_MUTEX_ERROR)
             .get_range(
                 &Self::get_number_and_index_key(block_number_from, 0).into(),
-                &Self::get_number_and_index_key(block_number_to + 1, 0).into(),
+                &Self::get_number_and_index_key(block_number_range_end, 0).into(),
             )?;
 
         for tx_pair in tx_ids {
